@@ -303,6 +303,8 @@ RULES = [
     ("C14-R5", "format_filesize unit rewriting (kB -> KB, short units) on every humansize unit", r5),
     ("C02-R1", "`size OP literal` is the numeric comparison [shared with C02]", lambda ctx: __import__("c02").r1(ctx)),
     ("C14-R6", "FORMAT_SIZE hands its specifier to format_filesize unchanged", lambda ctx: __import__("extra2").format_size_arguments_unchanged(ctx)),
+    ("X-LITVALUE", "a literal evaluates to the text written in the query (patterns, size literals, arguments) [shared]", lambda ctx: __import__("extra2").literal_is_its_text(ctx)),
+    ("X-LEXEMS", "every lexem but an empty quoted string reaches the grammar (a blank string is a value) [shared]", lambda ctx: __import__("extra2").lexems_are_kept(ctx)),
 ]
 
 EXPLANATION = (
